@@ -208,7 +208,17 @@ func (rc *RunCtx) Bubble(f func()) (leak string) {
 			leak = fmt.Sprint(r)
 		}
 	}()
-	synctest.Test(rc.T, func(t *testing.T) { f() })
+	synctest.Test(rc.T, func(t *testing.T) {
+		f()
+		// Time stops when this function returns, and a goroutine still asleep then
+		// stays behind for the life of the process with everything it references.
+		// Let pending timers of finished executions fire (no scheduler is active any
+		// more, so whatever wakes runs through and exits).
+		for i := 0; i < 3; i++ {
+			time.Sleep(1000 * time.Hour)
+			synctest.Wait()
+		}
+	})
 	return ""
 }
 
